@@ -41,6 +41,7 @@ package model
 
 //@ func (*BinaryModel).ResolveDependencies
 //@   requires packetsNonNil(m)
+//@   ensures len(m.SyntaxErrors) >= old(len(m.SyntaxErrors)) && len(m.Packets) == old(len(m.Packets)) && forall(q, 0, len(m.Packets), m.Packets[q] == old(m.Packets[q]))
 //@   ensures [C12:D6-all-resolved] len(m.SyntaxErrors) == old(len(m.SyntaxErrors)) ==> forall(p, 0, len(m.Packets), forall(i, 0, len(m.Packets[p].Fields), resolved(m, m.Packets[p].Fields[i])))
 //@   loop 0 invariant m.PacketsMap == entry(m.PacketsMap) && len(m.Packets) == entry(len(m.Packets)) && forall(q, 0, len(m.Packets), m.Packets[q] == entry(m.Packets[q]))
 //@   loop 0 invariant len(m.SyntaxErrors) >= old(len(m.SyntaxErrors)) && (len(m.SyntaxErrors) == old(len(m.SyntaxErrors)) ==> forall(p, 0, rangeindex + 1, forall(i, 0, len(m.Packets[p].Fields), resolved(m, m.Packets[p].Fields[i]))))
